@@ -20,6 +20,8 @@ func main() {
 		filterMain(args)
 	case "C16":
 		mirrorE2EMain(args)
+	case "C10":
+		reloadMain(args)
 	case "C01", "C12", "C13":
 		blastMain(args, args.Prop)
 	default:
